@@ -93,30 +93,84 @@ def plugin_configs(tier):
     return out
 
 
-def settings_via_config_file(ctx):
-    """Turn the (name, dict) list into a server configuration file and let the real KmipServerConfig parse it back:
-    the auth_settings handed to the session are then exactly what a deployed server would hand over."""
-    import configparser
-    from kmip.services.server import config as server_config
+class ServerPath:
+    """The REAL server in front of the session: a complete configuration file (server section, optional
+    enable_tls_client_auth text, one section per plugin block) is loaded by a real KmipServer(config_path=...), and the
+    session is the one KmipServer._setup_connection_handler creates for the connection - only Thread.start is held back
+    so that the harness can drive that very session object frame by frame.  The server's engine is the recording proxy."""
 
-    def convert(settings):
-        if any(not isinstance(v, str) for _, conf in settings for v in conf.values()):
-            return settings                                   # a non-string value cannot come from a file
-        if len({name for name, _ in settings}) != len(settings):
-            return settings                                   # duplicate section names are a configparser error
-        text = '[server]\nhostname=127.0.0.1\n'
-        for name, conf in settings:
-            text += '[%s]\n' % name + ''.join('%s=%s\n' % kv for kv in conf.items())
-        path = os.path.join(str(ctx.work), 'server.conf')
-        with open(path, 'w') as f:
-            f.write(text)
-        parser = configparser.ConfigParser()
-        parser.read(path)
-        cfg = server_config.KmipServerConfig()
-        cfg.parse_auth_settings(parser)
-        ctx.count('settings.via-config-file')
-        return cfg.settings['auth_plugins']
-    return convert
+    def __init__(self, ctx):
+        import logging
+        self.ctx = ctx
+        self.dir = os.path.join(str(ctx.work), 'server')
+        os.makedirs(self.dir, exist_ok=True)
+        for n in ('server.crt', 'server.key', 'ca.crt'):
+            open(os.path.join(self.dir, n), 'a').close()
+        self.cache = {}
+        self.logger = logging.getLogger('kmip.server')
+        self.before = list(self.logger.handlers)
+
+    def usable(self, plugins):
+        names = [p['name'] for p in plugins]
+        return (all(n.startswith('auth:') for n in names) and len(set(names)) == len(names)
+                and all(p.get('url') is None or isinstance(p['url'], str) for p in plugins))
+
+    def server(self, flag_text, plugins):
+        from kmip.services.server import server as server_mod
+        key = (flag_text, tuple((p['name'], p.get('enabled'), p.get('url')) for p in plugins))
+        if key not in self.cache:
+            d = self.dir
+            text = ('[server]\nhostname=127.0.0.1\nport=5696\ncertificate_path=%s/server.crt\nkey_path=%s/server.key\n'
+                    'ca_path=%s/ca.crt\nauth_suite=TLS1.2\nlogging_level=CRITICAL\n' % (d, d, d))
+            if flag_text is not None:
+                text += 'enable_tls_client_auth=%s\n' % flag_text
+            for p in plugins:
+                text += '[%s]\n' % p['name']
+                if p.get('enabled') is not None:
+                    text += 'enabled=%s\n' % p['enabled']
+                if p.get('url') is not None:
+                    text += 'url=%s\n' % p['url']
+            path = os.path.join(d, 'server-%d.conf' % len(self.cache))
+            with open(path, 'w') as f:
+                f.write(text)
+            self.cache[key] = server_mod.KmipServer(config_path=path, log_path=os.path.join(d, 'log', 'server.log'))
+            self.close()                    # drop the log-file handler the constructor added; hundreds of servers are built
+            self.ctx.count('server-path.servers-built')
+        return self.cache[key]
+
+    def factory(self, flag_text, plugins):
+        """session_factory for sessdrv.run_spec"""
+        srv = self.server(flag_text, plugins)
+
+        def make(proxy, conn, address):
+            made = []
+            srv._engine = proxy
+            orig = sessdrv.session_mod.KmipSession.start
+            sessdrv.session_mod.KmipSession.start = lambda this: made.append(this)
+            try:
+                srv._setup_connection_handler(conn, address)
+            finally:
+                sessdrv.session_mod.KmipSession.start = orig
+            if len(made) != 1:
+                raise RuntimeError('KmipServer._setup_connection_handler created %d sessions' % len(made))
+            self.ctx.count('server-path.sessions')
+            return made[0]
+        return make
+
+    def close(self):
+        for h in [h for h in self.logger.handlers if h not in self.before]:
+            self.logger.removeHandler(h)
+            try:
+                h.close()
+            except Exception:
+                pass
+
+
+def flag_text_for(tls, n):
+    """a spelling of enable_tls_client_auth that MEANS tls (None = option absent = on)"""
+    words = (TRUE_SPELLINGS + (None,)) if tls else FALSE_SPELLINGS
+    w = words[n % len(words)]
+    return w if w is None else (w, w.upper(), w.capitalize())[(n // 7) % 3]
 
 
 def cert_shapes(tier):
@@ -236,6 +290,16 @@ def spec_at(spec, i):
 
 
 def oracle(ctx, label, spec0, obs):
+    cert = spec0['cert']
+    if cert is not None and len(cert[0]) == 1:
+        cn = cert[0][0]
+        for url in obs.get('slugs_calls', []):
+            asked = url.split('/users/', 1)[1] if '/users/' in url else None
+            asked = asked[:-len('/groups')] if asked is not None and asked.endswith('/groups') else asked
+            if asked != cn:
+                ctx.violation({'kind': 'slugs-asked-about-another-name'}, {'config': label, 'cert': cert, 'url': url, 'common_name': cn},
+                              'the SLUGS service was asked about %r while the certificate says %r' % (asked, cn))
+                break
     for i, f in enumerate(obs['frames']):
         spec = spec_at(spec0, i)
         want = expected_identity(spec)
@@ -291,19 +355,22 @@ def run(ctx):
         'arrangements, 6 decisive certificates x all three-block arrangements; quick: '
         'plain shapes x basic configurations in full, arrangements x 5 decisive certificates, subject encodings x 8 decisive '
         'configurations); for every second cell the '
-        'auth_settings are written to a server configuration file and read back by the real KmipServerConfig.  Every cell is run; a case is '
+        'session is the one a REAL KmipServer, built from a configuration file saying the same, creates in _setup_connection_handler.  '
+        'Every cell is run; a case is '
         'distinct by (certificate shape, flag, configuration).  Plus: one-CN certificates whose extended key usage is every subset '
         '(size 1..3; size 0 = the extension-absent shapes) of {serverAuth, clientAuth, codeSigning, emailProtection, timeStamping, OCSPSigning, anyExtendedKeyUsage, unknown OID}, '
         'critical and not, x flag; and complete server configuration FILES with every spelling ConfigParser.getboolean accepts for '
-        'enable_tls_client_auth (and the option absent) loaded by KmipServerConfig.load_settings, session built from the loaded settings '
-        'as KmipServer does, x 5 certificate kinds.')
+        'enable_tls_client_auth (and the option absent) x 5 certificate kinds, and every plugin section name the session rule accepts '
+        '(auth:slugs, auth:slugs:primary, auth:slugs2, auth:slugs-backup, auth:slugs_eu, ... alone and in pairs), all through a real '
+        'KmipServer; common names with leading/trailing/double white space, tab, NBSP, case and Unicode-form variants next to a '
+        'SLUGS service that knows the tidy names only.')
     ctx.regen(only=['enums'])
     ctx.prove('props/C17.v')
 
     seed_path, info = c12.make_seed_db(ctx.work)
     pool = c12.Pool(ctx, seed_path)
     cases, meta = [], []
-    via_config = settings_via_config_file(ctx)
+    server_path = ServerPath(ctx)
     try:
         px = pool.fresh()
         b = kdrv.Engine.build
@@ -355,7 +422,9 @@ def run(ctx):
             sizes = [len(s)] if n % 3 else [8, len(s) - 8]
             spec = sessdrv.default_spec(s, sizes, cert=cert, tls=tls, plugins=plugins)
             c0 = len(px.calls)
-            obs, _ = sessdrv.run_spec(px, spec, settings_from=via_config if n % 2 else None)
+            # every second cell: the session is the one a real KmipServer creates from a configuration file saying the same
+            fac = server_path.factory(flag_text_for(tls, n), plugins) if n % 2 and server_path.usable(plugins) else None
+            obs, _ = sessdrv.run_spec(px, spec, session_factory=fac)
             calls = px.calls[c0:]
             oracle(ctx, label, spec, obs)
             if len(obs['frames']) != len(c12.frames_py(s)) or obs['end'] != 'closed':
@@ -375,6 +444,20 @@ def run(ctx):
             if n % 300 == 0:
                 pool.release(px)
                 px = pool.fresh()
+        def run_cell(label, spec, factory, model=True):
+            c0 = len(px.calls)
+            obs, _ = sessdrv.run_spec(px, spec, session_factory=factory)
+            oracle(ctx, label, spec, obs)
+            if model:
+                try:
+                    cases.append(sessdrv.coq_case(spec, obs, px.calls[c0:]))
+                    meta.append({'config': label, 'cert': spec['cert'], 'tls': spec['tls'], 'plugins': spec['plugins'],
+                                 'entered': [bool(f['engine']) for f in obs['frames']]})
+                except ValueError as e:
+                    ctx.disagreement('establish', {'config': label, 'unprintable': str(e)})
+            ctx.case_seen(label, nontrivial=True)
+            return obs
+
         # every extended-key-usage set: only a certificate that CARRIES clientAuth passes the enabled check
         key_p = [p for p in plugin_configs(ctx.tier) if p[0] in ('none', 'one:ok')]
         for (clabel, cert), tls, (plabel, plugins) in itertools.product(eku_set_shapes(ctx.tier), (True, False), key_p[:1] if quick else key_p):
@@ -396,25 +479,38 @@ def run(ctx):
         for (text, meaning), (clabel, cert) in itertools.product(
                 flag_spellings(), [c for c in cert_shapes(ctx.tier) if c[0] in ('absent', '1cn-absent', '1cn-server', '1cn-client', '2cn-client')]):
             label = '%s|file:enable_tls_client_auth=%s|none' % (clabel, text)
-            try:
-                loaded = server_settings_from_file(ctx, text)
-            except Exception as e:
-                ctx.disagreement('establish', {'config': label, 'load_settings_raised': repr(e)[:200]})
-                continue
             spec = sessdrv.default_spec(create + garbage + get + nego_for(len(cases)), cert=cert, tls=meaning, plugins=[])
-            c0 = len(px.calls)
-            obs, _ = sessdrv.run_spec(px, spec, tls_from=lambda: loaded.get('enable_tls_client_auth'),
-                                      settings_from=lambda _s: loaded.get('auth_plugins'))
-            oracle(ctx, label, spec, obs)
-            try:
-                cases.append(sessdrv.coq_case(spec, obs, px.calls[c0:]))
-            except ValueError as e:
-                ctx.disagreement('establish', {'config': label, 'unprintable': str(e)})
-                continue
-            meta.append({'config': label, 'cert': cert, 'tls': meaning, 'file_text': text, 'loaded_flag': repr(loaded.get('enable_tls_client_auth')),
-                         'plugins': [], 'entered': [bool(f['engine']) for f in obs['frames']]})
-            ctx.case_seen((clabel, 'file', text), nontrivial=True)
+            run_cell(label, spec, server_path.factory(text, []))
             ctx.count('config-file.' + ('absent' if text is None else str(meaning)))
+        # every section name the session's own rule (name starts with "auth:slugs") accepts, alone and in pairs
+        names = ['auth:slugs', 'auth:slugs:primary', 'auth:slugs2', 'auth:slugs-backup', 'auth:slugs_eu', 'auth:slugsX', 'auth:slug', 'auth:other']
+        named = [[block(name=nm, outcome=o)] for nm in names for o in ('ok', '404-user')]
+        named += [[block(name=a, outcome='404-user'), block(name=c, url=URL2, outcome='ok')] for a, c in
+                  (('auth:slugs2', 'auth:slugs_eu'), ('auth:slugs', 'auth:slugs-backup'), ('auth:slugs:a', 'auth:slugs:b'), ('auth:other', 'auth:slugs2'))]
+        for plugins, (clabel, cert), (text, meaning) in itertools.product(
+                named, [c for c in cert_shapes(ctx.tier) if c[0] in ('1cn-client', '1cn-absent')], ((None, True), ('off', False))):
+            label = '%s|file:%s|names:%s' % (clabel, text, ','.join('%s=%s' % (p['name'], p['outcome']) for p in plugins))
+            spec = sessdrv.default_spec(create + get + nego_for(len(cases)), cert=cert, tls=meaning, plugins=plugins)
+            run_cell(label, spec, server_path.factory(text, plugins))
+            ctx.count('server-path.section-names')
+        # the common name, byte for byte: white space, case, Unicode forms - next to a user whose name is the tidy form.
+        # The SLUGS service knows 'alice', 'John Doe' and NFC 'é' (and nobody else).
+        known = {'alice': ['Group A'], 'John Doe': ['Staff'], '\u00e9': ['Accents']}
+        for cn in (' alice', 'alice ', 'alice', 'John  Doe', 'John Doe', 'alice\t', 'alice\u00a0', 'Alice', 'ALICE', 'e\u0301', '\u00e9',
+                   '\uff41\uff4c\uff49\uff43\uff45', ' ', 'alice\n', 'a lice'):
+            try:
+                sessdrv.make_cert([cn], 'client')
+            except Exception:
+                continue
+            for plugins in ([], [dict(block(), users=known)]):
+                for b_ in plugins:                          # what that service answers for this very name
+                    hit = cn in b_['users']
+                    b_['user'] = ('status', 200 if hit else 404)
+                    b_['groups'] = ('status', 200, {'groups': b_['users'][cn]}) if hit else ('status', 404, {})
+                label = 'cn=%r|tls=True|%s' % (cn, 'slugs-knows-alice' if plugins else 'none')
+                spec = sessdrv.default_spec(create + get + nego_for(len(cases)), cert=((cn,), 'client'), tls=True, plugins=plugins)
+                run_cell(label, spec, None, model=all(32 <= ord(ch) < 127 for ch in cn))
+                ctx.count('common-name.variants')
         # the service's answers change while the connection is open: every request is authenticated afresh
         for names in (['ok', '404-user', 'ok'], ['404-user', 'ok', 'unreachable'], ['ok', 'ok-nogroups', '500-user-only'],
                       ['unreachable', 'unreachable', 'ok'], ['ok', '404-groups', '404-groups']):
@@ -436,6 +532,7 @@ def run(ctx):
         pool.release(px)
     finally:
         pool.close()
+        server_path.close()
     bad = ctx.run_cases('establish', HEADER, cases, 'check_conn', shard=150,
                         what='cert_checks/authenticate/handle (Session/Session.v) vs KmipSession over the full configuration product')
     for i in bad[:20]:
